@@ -585,6 +585,38 @@ def _cancel_site(fn):
     return cands[0]
 
 
+def _consistent_avoiding(cfg, fnorm, targets, gate_node):
+    """find_path_avoiding(gate_node=..) restricted to paths that do not take
+    both outcomes of the same truth test on a local that is not re-bound in
+    between (`if not n: raise` followed by `if n:`)."""
+    def transfer(n, lab, nxt, st):
+        held, facts = st
+        if n.kind in ("entry", "exit", "raise"):
+            return st
+        stored = node_stores(n)
+        if stored:
+            facts = frozenset((e, v) for (e, v) in facts if not (leaves_of(e) & stored))
+        if n.kind == "test" and isinstance(lab, tuple) and isinstance(n.ast, ast.Name):
+            e, v = n.ast.id, lab[0] == "T"
+            if (e, not v) in facts:
+                return None
+            facts = facts | {(e, v)}
+        if lab != "exc" and gate_node(n):
+            held = True
+        return (held, facts)
+
+    def leaves_of(e):
+        return {e}
+    visited, parent = explore(cfg, (False, frozenset()), transfer)
+    out, seen = [], set()
+    for (nid, st) in sorted(visited, key=lambda x: (x[0], x[1][0], sorted(x[1][1]))):
+        n = cfg.nodes[nid]
+        if not st[0] and targets(n) and nid not in seen:
+            seen.add(nid)
+            out.append((n, witness(cfg, parent, (nid, st))))
+    return out
+
+
 def _get_config_key(e):
     if isinstance(e, ast.Call) and call_tail(e) == "get_config" and len(e.args) >= 2 \
             and isinstance(e.args[1], ast.Constant) and isinstance(e.args[0], ast.Constant):
@@ -600,7 +632,7 @@ def run(ctx: Context):
     # -- 1. dimension analysis -------------------------------------------
     with ctx.rule("C26.1", "R8", "dimension analysis of LeaseCheckingCrawler.process_share and the LeaseInfo "
                   "accessors: every comparison / min / max / phi-join / seeded attribute store relates like "
-                  "dimensions (Timestamp vs Duration)", expected=6) as r:
+                  "dimensions (Timestamp vs Duration)", expected=11) as r:
         df = DimFlow(ps)
         probs = df.check()
         r.count(df.steps)
@@ -632,6 +664,42 @@ def run(ctx: Context):
                         meth, DIM_NAME[want], src(f, n.ast.value), _dimset(dims)))
                 else:
                     raise AnalysisError("dimension of LeaseInfo.%s() cannot be derived from %s" % (meth, src(f, n.ast.value)))
+        # the "renewal time" hack in lease.py subtracts exactly the duration the server grants
+        sx0 = SymExec(idx, ps)
+        dur = sx0.inline("get_expiration_time", "L") - sx0.inline("get_grant_renew_time_time", "L")
+        granted = get_folder(idx).module_const("storage.server", "DEFAULT_RENEWAL_TIME")
+        lf = idx.func(LEASE + ".get_grant_renew_time_time")
+        r.site(lf, None, "lease duration %s" % granted)
+        r.require(isinstance(dur, Poly) and dur.const_value() is not None and dur.const_value() == granted, lf, lf.loc(),
+                  "get_grant_renew_time_time() assumes a lease duration of %s s but the server grants "
+                  "DEFAULT_RENEWAL_TIME = %s s: every renewal time (age, cutoff comparison) is off by the difference" % (
+                      dur, granted))
+        n_grant = 0
+        for m in idx.cls("storage.server:StorageServer").methods.values():
+            uses = [x for x in func_own_nodes(m) if isinstance(x, ast.Name) and x.id == "DEFAULT_RENEWAL_TIME"]
+            if not uses:
+                continue
+            fl = DimFlow(m)
+            r.count(fl.steps)
+            for p in fl.check():
+                r.violation(m, m.loc(p.node), p.msg)
+            for n in fl.cfg.nodes:
+                if n.id not in fl.IN:
+                    continue
+                for e in node_exprs(n):
+                    here = [u for u in uses if any(y is u for y in own_nodes(e))]
+                    for u in here:
+                        n_grant += 1
+                        par = [x for x in own_nodes(e) if isinstance(x, ast.BinOp) and (u is x.left or u is x.right)]
+                        x = par[0] if par else u
+                        dims = fl.ev(x, fl.IN[n.id], False)
+                        r.site(m, x, "lease expiry granted")
+                        r.require(isinstance(x, ast.BinOp) and isinstance(x.op, ast.Add) and dims == {T}, m, m.loc(x),
+                                  "a lease expiration time is computed as %s [%s], not clock + DEFAULT_RENEWAL_TIME" % (
+                                      src(m, x), _dimset(dims)))
+        if n_grant < 4:
+            raise AnchorVanished("StorageServer no longer computes lease expiry as clock + DEFAULT_RENEWAL_TIME at 4 sites "
+                                 "(found %d)" % n_grant)
         # the other crawler methods must be free of dimension conflicts too
         for m in idx.cls(EXPIRER).methods.values():
             if m is ps:
@@ -802,7 +870,8 @@ def run(ctx: Context):
         for n in func_own_nodes(ps):
             if isinstance(n, ast.Name) and n.id == L and isinstance(n.ctx, ast.Load):
                 par_ok = (n is cancel_loop.iter) or any(
-                    isinstance(c.func, ast.Attribute) and c.func.value is n for c in calls_in_func(ps))
+                    (isinstance(c.func, ast.Attribute) and c.func.value is n) or
+                    (call_name(c) in ("len", "bool") and len(c.args) == 1 and c.args[0] is n) for c in calls_in_func(ps))
                 r.require(par_ok, ps, ps.loc(n), "%s escapes (aliased or passed on): %s" % (L, L))
         # no other deleting effect in the crawler
         deleting = {"unlink", "remove", "rmtree", "rm_dir", "rmdir", "rename", "truncate", "remove_share",
@@ -846,6 +915,10 @@ def run(ctx: Context):
                         "remains (len(%s) == 0) (path: %s)" % (V, w.brief()), w)
         if filt:
             comp = assign_value(filt[0], V)
+            # the emptiness test looks at the rebuilt list: a share whose leases were all cancelled is removed now
+            for (n, w) in _consistent_avoiding(cfg, fnorm, has_call("unlink"), lambda x: x is filt[0]):
+                r.violation(f, f.loc(n.ast), "the unlink decision can be reached without rebuilding the list of remaining "
+                            "leases: a share whose last lease was cancelled is never removed (path: %s)" % w.brief(), w)
             # entries are dropped (set to None) only when is_cancel_secret matched
             drop = [n for n in cfg.nodes if n.kind == "stmt" and isinstance(n.ast, ast.Assign)
                     and isinstance(n.ast.value, ast.Constant) and n.ast.value.value is None
@@ -857,6 +930,12 @@ def run(ctx: Context):
             for (n, w) in find_path_avoiding(cfg, lambda x: any(x is d for d in drop), gate_edge=match,
                                              kill=lambda x: x.kind == "iter"):
                 r.violation(f, f.loc(n.ast), "a lease is dropped without matching the cancel secret", w)
+            mt = [n for n in cfg.nodes if n.kind == "test" and any(call_tail(c) == "is_cancel_secret" for c in node_calls(n))]
+            for t0 in mt:
+                for (s0, w) in find_path_from_to_avoiding(
+                        cfg, lambda x, _t=t0: x is _t, gate_node=lambda x: any(x is d for d in drop),
+                        ends=lambda x: x.kind in ("iter", "exit"), start_label=lambda lab: isinstance(lab, tuple) and lab[0] == "T"):
+                    r.violation(f, f.loc(t0.ast), "a lease whose cancel secret matches is not dropped", w)
             ok = len(comp.generators) == 1 and len(comp.generators[0].ifs) == 1 \
                 and isinstance(comp.generators[0].target, ast.Name) and isinstance(comp.elt, ast.Name) \
                 and comp.elt.id == comp.generators[0].target.id
@@ -865,6 +944,25 @@ def run(ctx: Context):
                 ok = N().cmp(comp.generators[0].ifs[0]) in (("truth", tname, None), ("is not", "None", tname))
             r.require(ok, f, f.loc(comp), "the remaining-lease list does not keep exactly the entries that were not "
                       "dropped: %s" % src(f, comp))
+            # the surviving leases are written back (records, then the count) before the decision;
+            # otherwise the count is taken over stale records and a valid lease is replaced by a cancelled one
+            heads = [n for n in cfg.nodes if n.kind == "iter" and V in {x.id for x in own_nodes(n.ast.iter) if isinstance(x, ast.Name)}
+                     and any(call_tail(c) == "_write_lease_record" for st in n.ast.body for c in own_nodes(st) if isinstance(c, ast.Call))]
+            wnn = [n for n in cfg.nodes if any(c is wn[0] for c in node_calls(n))]
+            if len(heads) != 1:
+                r.violation(f, f.loc(filt[0].ast), "the remaining leases are not written back record by record after a cancellation")
+            else:
+                tn = {t.id for t in own_nodes(heads[0].ast.target) if isinstance(t, ast.Name)}
+                wc = [c for st in heads[0].ast.body for c in own_nodes(st) if isinstance(c, ast.Call) and call_tail(c) == "_write_lease_record"][0]
+                r.require(len(wc.args) == 3 and all(isinstance(a, ast.Name) for a in wc.args[1:]) and
+                          {a.id for a in wc.args[1:]} == tn and len(tn) == 2, f, f.loc(wc),
+                          "remaining leases are written back as %s" % src(f, wc))
+                for (n, w) in _consistent_avoiding(cfg, fnorm, lambda x: any(x is y for y in wnn), lambda x: x is heads[0]):
+                    r.violation(f, f.loc(n.ast), "the lease count is written without rewriting the lease records", w)
+            for (n, w) in _consistent_avoiding(cfg, fnorm, has_call("unlink"), lambda x: any(x is y for y in wnn)):
+                r.violation(f, f.loc(n.ast), "the new lease count is not written before the unlink decision", w)
+            for (n, w) in find_path_avoiding(cfg, lambda x: any(x is y for y in wnn), gate_node=lambda x: x is filt[0]):
+                r.violation(f, f.loc(n.ast), "the lease count is written from the unfiltered list", w)
         # mutable: counter of non-matching leases
         g = idx.func("storage.mutable:MutableShareFile.cancel_lease")
         cfg = g.cfg()
@@ -901,6 +999,34 @@ def run(ctx: Context):
                 gate_node=lambda x: x.kind == "stmt" and isinstance(x.ast, ast.AugAssign) and attr_path(x.ast.target) == rem,
                 ends=lambda x: x.kind in ("iter", "exit"), start_label=lambda lab: isinstance(lab, tuple) and lab[0] == "F"):
             r.violation(g, g.loc(s.ast), "a lease that does not match the cancel secret is not counted as remaining", w)
+        # a matching lease is blanked on disk (otherwise it is counted as remaining by the next cancellation)
+        for (s0, w) in find_path_from_to_avoiding(
+                cfg, lambda x: x is tests[0], gate_node=has_call("_write_lease_record"),
+                ends=lambda x: x.kind in ("iter", "exit"), start_label=lambda lab: isinstance(lab, tuple) and lab[0] == "T"):
+            r.violation(g, g.loc(s0.ast), "a lease whose cancel secret matches is not overwritten with the blank lease: with "
+                        "several expired leases the share is never removed", w)
+        # the blank lease written over a cancelled one is what _read_lease_record treats as "no lease"
+        wl = [c for n in cfg.nodes for c in calls_at(n, "_write_lease_record")]
+        blank_ok = False
+        marker = None
+        for c in wl:
+            b = gn.resolve([n for n in cfg.nodes if any(x is c for x in node_calls(n))][0], arg(c, 2))
+            if isinstance(b, ast.Call) and call_tail(b) == "LeaseInfo":
+                on = kwarg(b, "owner_num") or arg(b, 0)
+                if isinstance(on, ast.Constant):
+                    marker = on.value
+                    blank_ok = True
+        rl = idx.func("storage.mutable:MutableShareFile._read_lease_record")
+        rn = FlowNorm(rl)
+        skip_ok = False
+        for n in rl.cfg().find(returns_const(None)):
+            bad = find_path_avoiding(rl.cfg(), lambda x, _n=n: x is _n, gate_edge=lambda x, lab: (
+                lambda ft: bool(ft) and ft[0] == "==" and repr(marker) in ft[1:] and any(
+                    str(y).endswith(".owner_num") for y in ft[1:]))(rn.edge_fact(x, lab)))
+            if not bad:
+                skip_ok = True
+        r.require(blank_ok and skip_ok, g, g.loc(), "the record written over a cancelled lease (owner_num=%r) is not the one "
+                  "_read_lease_record skips: cancelled leases keep counting as remaining" % (marker,))
         # the counter starts at 0 and is only incremented
         for n in cfg.nodes:
             if rem in node_stores(n) and n.kind == "stmt":
